@@ -285,13 +285,17 @@ func (m *mdrv) Deliveries() []pr.Dlv {
 	return g
 }
 
-func (m *mdrv) Teardown() {
-	done := make(chan struct{})
-	go func() { m.in.Close(); m.out.Close(); close(done) }()
+// Teardown closes both ports (two legal calls at the end of every history); a panic in one of them is returned as text.
+func (m *mdrv) Teardown() (pan string) {
+	done := make(chan string, 1)
+	go func() {
+		done <- hx.Catch(func() { m.in.Close(); m.out.Close() })
+	}()
 	select {
-	case <-done:
+	case pan = <-done:
 	case <-time.After(5 * time.Second):
 	}
+	return pan
 }
 
 // genHistory: a random protocol-respecting history (mirrors Ports!Enabled for kind "midicat").
@@ -519,7 +523,10 @@ func runOne(h *pr.History, w *hx.Writer) bool {
 	evMu.Unlock()
 	ok := pr.Run(m, h)
 	if ok {
-		m.Teardown() // so that the events of closing the port belong to this history
+		// so that the events of closing the port belong to this history; a panic while closing counts against the last step
+		if p := m.Teardown(); p != "" && len(h.Steps) > 0 && h.Steps[len(h.Steps)-1].Pan == "" {
+			h.Steps[len(h.Steps)-1].Pan = "closing the ports after the history (in.Close, out.Close): " + p
+		}
 	}
 	evMu.Lock()
 	h.Events = append([]string{}, evLog...)
